@@ -146,13 +146,21 @@ def pairing(run, f, sp):
         # identity = self.identity()
         idt = strip_wrappers(args[0]) if args else None
         ok_id = False
+        ibody = rsite.body
+        if idt is not None and idt[0] in ("upvar", "field"):
+            ibody, idt = sp.lift(rsite.body, idt)       # `let identity = self.identity();` hoisted and captured
+            idt = strip_wrappers(idt)
         if idt and idt[0] == "call" and idt[2] == "actor_ref::ActorRef::<T>::identity":
-            tr = tracer_of(rsite.body)
-            who = sp.resolve_to_root_param(rsite.body, tr.norm(tr.call_args(idt[1])[0]))
+            tr = tracer_of(ibody)
+            who = sp.resolve_to_root_param(ibody, tr.norm(tr.call_args(idt[1])[0]))
             ok_id = who[0] in ("param", "clone_of_param") and who[2] == 1
         run.require(ok_id, "O13.1", "identity:%s" % key, "dead letter does not name self.identity() (%s)" % (show(idt) if idt else None), "identity = self.identity()", loc=rsite.loc)
         # label
         op = args[2] if len(args) > 2 else None
+        if op is not None and strip_wrappers(op)[0] != "const":
+            # the label may be handed down through a helper's parameter / a closure capture: `bounded(timeout, "ask", fut)`
+            _, op = sp.lift(rsite.body, op)
+        op = strip_wrappers(op) if op is not None else None
         label = op[1].strip('"') if op and op[0] == "const" else None
         lab_ok = label in LABELS and label in expected_labels(f, site.root)
         run.require(lab_ok, "O13.4", "label:%s" % key, "operation label %r under API %s" % (label, fnname), "label %r" % label, loc=rsite.loc)
